@@ -172,8 +172,39 @@ func inheritedAudit(c *Ctx, o *Obligation, t *Tables, produced map[string]bool, 
 			return e, true
 		}
 	}
+	// the audited access moved into a private ACCESSOR of the same function and its obligation was
+	// lifted back to the call: `m[i].Cells[0].Str` became `entryKeyName(m[i])` with the index inside
+	// the helper — the obligation `call entryKeyName with $0[…]` stands where `$0[…].Cells[0]` stood
+	if m := liftedCall.FindStringSubmatch(o.Construct); m != nil {
+		arg := loose(m[2])
+		var ks []string
+		for k, e := range t.Audited {
+			if e.Rule == o.Rule && e.Func == o.Func && strings.HasPrefix(loose(e.Construct), arg+".Cells[") && !produced[k] && !consumed[k] {
+				ks = append(ks, k)
+			}
+		}
+		sort.Strings(ks)
+		for _, k := range ks {
+			helperOK := false
+			for _, u := range c.Funcs(nil) {
+				if u.Obj.Name() == m[1] && u.Pkg == c.pkgOf[c.declOf[fn]] {
+					if _, ok := c.privateHelperOf(u.Obj, func(name string) bool { return name == o.Func }, 0); ok {
+						helperOK = true
+					}
+				}
+			}
+			if helperOK {
+				e := t.Audited[k]
+				consumed[k] = true
+				e.Reason = "the access moved into the private accessor " + m[1] + " and was lifted back to this call; audited here: " + e.Reason
+				return e, true
+			}
+		}
+	}
 	return AuditEntry{}, false
 }
+
+var liftedCall = regexp.MustCompile(`^call (\S+) with (.*?)(#\d+)?$`)
 
 var closureSuffix = regexp.MustCompile(`(\$\d+)+$`)
 
